@@ -238,7 +238,16 @@ def gen_c10(rng: random.Random, tier: str) -> Plan:
 # C17: hand-assembled circuits whose fold groups mix initialisers
 
 
-def _gen_init(rng: random.Random, shape: tuple[int, ...], *, positive: bool, dtype: str) -> dict[str, Any]:
+def _gen_init(rng: random.Random, shape: tuple[int, ...], *, positive: bool, dtype: str,
+              twins: list[dict[str, Any]] | None = None) -> dict[str, Any]:
+    if twins and rng.random() < 0.3:
+        # same-looking initialisers on different tensors of one circuit: an exact twin, or a
+        # twin differing beyond the printed precision / in one entry in the middle
+        base = rng.choice(twins)
+        if base["shape"] == list(shape) and base["dtype"] == dtype:
+            v = dict(base["value"])
+            v["tweak"] = rng.choice(["eps", "middle", None])
+            return {"type": "const", "value": v}
     kinds = ["const", "const_array", "uniform", "normal", "dirichlet", "dirichlet"]
     if positive:
         kinds = ["const", "const_array", "uniform", "dirichlet", "dirichlet"]
@@ -266,8 +275,10 @@ def _gen_init(rng: random.Random, shape: tuple[int, ...], *, positive: bool, dty
             bshape = [1] * len(shape)
         akind = "complex" if dtype == "complex" and rng.random() < 0.6 else rng.choice(
             ["float", "float", "float32", "int"])
-        return {"type": "const", "value": {"array": rng.randrange(10**6), "bshape": bshape,
-                                           "dtype": akind}}
+        val = {"array": rng.randrange(10**6), "bshape": bshape, "dtype": akind}
+        if twins is not None and akind == "float" and bshape is None:
+            twins.append({"shape": list(shape), "dtype": dtype, "value": val})
+        return {"type": "const", "value": val}
     if t == "uniform":
         a = round(rng.uniform(0.05, 1.0), 3) if positive else round(rng.uniform(-2.0, 0.5), 3)
         return {"type": "uniform", "a": a, "b": round(a + rng.uniform(0.3, 2.0), 3)}
@@ -284,10 +295,11 @@ def _gen_init(rng: random.Random, shape: tuple[int, ...], *, positive: bool, dty
 
 
 def _gen_pspec(rng: random.Random, shape: tuple[int, ...], *, positive: bool, dtype: str,
-               learnable: bool, acts: list[str]) -> dict[str, Any]:
+               learnable: bool, acts: list[str],
+               twins: list[dict[str, Any]] | None = None) -> dict[str, Any]:
     act = rng.choice(acts)
     need_pos = positive and act == "none"
-    init = _gen_init(rng, shape, positive=need_pos, dtype=dtype)
+    init = _gen_init(rng, shape, positive=need_pos, dtype=dtype, twins=twins)
     tp: dict[str, Any] = {"init": init, "learnable": learnable, "dtype": dtype}
     if init["type"] == "const" and not learnable and rng.random() < 0.4:
         v = init["value"]
@@ -302,6 +314,12 @@ def gen_hand_recipe(rng: random.Random, semiring: str) -> dict[str, Any]:
     nv = rng.randint(2, 4)
     k = rng.randint(2, 4)
     K = rng.randint(1, 3)
+    wide = rng.random() < 0.12
+    if wide:
+        # big tables (> 1000 entries): embedding layers over a variable with hundreds of states
+        k = rng.randint(340, 420)
+        K = 3
+    twins: list[dict[str, Any]] = []
     cplx = semiring != "lse-sum" and rng.random() < 0.2
     dtype = "complex" if cplx else "real"
     positive = semiring == "lse-sum"
@@ -313,6 +331,8 @@ def gen_hand_recipe(rng: random.Random, semiring: str) -> dict[str, Any]:
         acts = ["none", "none", "none", "softmax", "softplus", "square"]
     ltypes = ["embedding", "embedding", "categorical_probs", "categorical_logits"]
     if cplx:
+        ltypes = ["embedding"]
+    if wide:
         ltypes = ["embedding"]
     ltype = rng.choice(ltypes)
     # one fold group: same layer class, same learnable flag and dtype - different initialisers
@@ -328,17 +348,31 @@ def gen_hand_recipe(rng: random.Random, semiring: str) -> dict[str, Any]:
         elif lt == "categorical_logits":
             ps = _gen_pspec(rng, (K, k), positive=False, dtype="real", learnable=learn, acts=["none"])
         else:
-            ps = _gen_pspec(rng, (K, k), positive=positive, dtype=dtype, learnable=learn, acts=acts)
+            ps = _gen_pspec(rng, (K, k), positive=positive, dtype=dtype, learnable=learn, acts=acts,
+                            twins=twins)
         ps["layer"] = lt
         inputs.append(ps)
+    if not cplx and rng.random() < (0.5 if wide else 0.2):
+        # twin tables: same-looking constant arrays on different tensors of one circuit
+        seed = rng.randrange(10**6)
+        lt = "categorical_probs" if positive and not wide else "embedding"
+        learn = rng.random() < 0.5
+        for j, v in enumerate(rng.sample(range(nv), rng.randint(2, nv))):
+            val: dict[str, Any] = {"array": seed, "bshape": None, "dtype": "float"}
+            if j > 0:
+                val["tweak"] = rng.choice(["eps", "middle", "middle", None])
+            inputs[v] = {"tp": {"init": {"type": "const", "value": val}, "learnable": learn,
+                                "dtype": "real"}, "act": "none", "layer": lt}
     if rng.random() < 0.3:
         v = rng.randrange(nv)
         inputs[v]["evidence"] = rng.randrange(k)
     sums = None
     if rng.random() < 0.7:
         s_learn = rng.random() < 0.75
+        stwins: list[dict[str, Any]] = []
         sums = [_gen_pspec(rng, (K, K), positive=positive, dtype=dtype,
-                           learnable=s_learn if same_flags else rng.random() < 0.6, acts=acts)
+                           learnable=s_learn if same_flags else rng.random() < 0.6, acts=acts,
+                           twins=stwins)
                 for _ in range(nv)]
     nc = rng.choice([1, 1, 2])
     top = _gen_pspec(rng, (nc, K), positive=positive, dtype=dtype, learnable=rng.random() < 0.8,
